@@ -33,11 +33,9 @@ Lemma out_of_um e c l rs sc : oc_um (out_of e c l rs sc) <> UMPanic.
 Proof. apply user_metadata_no_panic. Qed.
 
 (* ---------- processSignature ---------- *)
-Definition pm_ok (pm : pmgr) : bool := match pm with PMPlugin MetaNil => false | _ => true end.
-
-Lemma discover_no_panic pm sc : pm_ok pm = true -> discover pm sc <> DPanic.
+Lemma discover_no_panic pm sc : discover pm sc <> DPanic.
 Proof.
-  intros H. unfold discover.
+  unfold discover, discover_gen, meta_nil_res.
   destruct (s_pattr sc); try discriminate;
     destruct (s_nonstr_crit sc); try discriminate.
   destruct (s_minver_bad sc); try discriminate.
@@ -60,12 +58,11 @@ Proof.
 Qed.
 
 Lemma process_signature_no_panic l pm sc :
-  pm_ok pm = true -> sc_wf sc = true -> process_signature l pm sc <> PSPanic.
+  process_signature l pm sc <> PSPanic.
 Proof.
-  intros Hpm Hsc. unfold sc_wf in Hsc. rename Hsc into Hresp.
-  unfold process_signature.
+  unfold process_signature, process_signature_gen, presp_nil_res; fold discover.
   destruct (s_sig sc); try discriminate.
-  pose proof (discover_no_panic pm sc Hpm) as Hd.
+  pose proof (discover_no_panic pm sc) as Hd.
   destruct (discover pm sc) as [|e| |caps] eqn:Ed; try congruence; try discriminate.
   - pose proof (native_no_panic l sc []) as Hn.
     destruct (native l sc []) eqn:En; try congruence; try discriminate.
@@ -84,7 +81,7 @@ Lemma process_signature_content l pm sc e c rs :
   process_signature l pm sc = PSRet e c rs ->
   c = match s_sig sc with SigOK => true | _ => false end.
 Proof.
-  unfold process_signature. destruct (s_sig sc); try (intros E; inversion E; reflexivity).
+  unfold process_signature, process_signature_gen, presp_nil_res; fold discover. destruct (s_sig sc); try (intros E; inversion E; reflexivity).
   destruct (discover pm sc); try discriminate.
   - intros E; inversion E; reflexivity.
   - destruct (native l sc []); try discriminate; try (intros E; inversion E; reflexivity).
@@ -101,7 +98,7 @@ Lemma process_signature_success_content l pm sc c rs :
   process_signature l pm sc = PSRet None c rs -> c = true.
 Proof.
   intros H. rewrite (process_signature_content _ _ _ _ _ _ H).
-  unfold process_signature in H. destruct (s_sig sc); try discriminate; reflexivity.
+  unfold process_signature, process_signature_gen in H. destruct (s_sig sc); try discriminate; reflexivity.
 Qed.
 
 (* ---------- verifier.Verify / VerifyBlob: shape of the result ---------- *)
@@ -126,13 +123,13 @@ Proof. unfold good_outc; cbn; discriminate. Qed.
 
 Lemma verify_oci_good v sc :
   sel_wf (v_oci v) = true ->
-  pm_ok (v_pm v) = true -> sc_wf sc = true -> good_v (oci_selected v) (verify_oci v sc).
+  good_v (oci_selected v) (verify_oci v sc).
 Proof.
-  intros Hsel Hpm Hsc. unfold verify_oci, oci_selected.
+  intros Hsel. unfold verify_oci, oci_selected.
   destruct (v_oci v) as [[| |l]|]; try (apply gv_err_early; reflexivity); [discriminate Hsel|].
   destruct (is_skip l).
   { apply gv_ok; [reflexivity | reflexivity | discriminate | apply skip_out_good]. }
-  pose proof (process_signature_no_panic l (v_pm v) sc Hpm Hsc) as Hn.
+  pose proof (process_signature_no_panic l (v_pm v) sc) as Hn.
   destruct (process_signature l (v_pm v) sc) as [|[e|] c rs] eqn:E; try congruence.
   - apply gv_err_out; [reflexivity | reflexivity | apply out_of_um].
   - rewrite (process_signature_success_content _ _ _ _ _ E). cbn [negb].
@@ -145,13 +142,13 @@ Qed.
 
 Lemma verify_blob_good v sc :
   sel_wf (v_blob v) = true ->
-  pm_ok (v_pm v) = true -> sc_wf sc = true -> good_v (blob_selected v) (verify_blob v sc).
+  good_v (blob_selected v) (verify_blob v sc).
 Proof.
-  intros Hsel Hpm Hsc. unfold verify_blob, blob_selected.
+  intros Hsel. unfold verify_blob, blob_selected.
   destruct (v_blob v) as [[| |l]|]; try (apply gv_err_early; reflexivity); [discriminate Hsel|].
   destruct (is_skip l).
   { apply gv_ok; [reflexivity | reflexivity | discriminate | apply skip_out_good]. }
-  pose proof (process_signature_no_panic l (v_pm v) sc Hpm Hsc) as Hn.
+  pose proof (process_signature_no_panic l (v_pm v) sc) as Hn.
   destruct (process_signature l (v_pm v) sc) as [|[e|] c rs] eqn:E; try congruence.
   - apply gv_err_out; [reflexivity | reflexivity | apply out_of_um].
   - rewrite (process_signature_success_content _ _ _ _ _ E). cbn [negb].
@@ -184,11 +181,11 @@ Proof. intros H; destruct H; try (apply gc_err). apply gc_ok; assumption. Qed.
 
 Lemma call_verify_good impl v sc :
   sel_wf (v_oci v) = true ->
-  impl <> VNil -> impl_wf impl = true -> pm_ok (v_pm v) = true -> sc_wf sc = true ->
+  impl <> VNil -> impl_wf impl = true ->
   good_call (call_verify impl v sc).
 Proof.
-  intros Hsel Hn Hi Hpm Hsc. destruct impl as [| |out err]; [congruence| |].
-  - cbn. apply (call_of_good_v _ _ (verify_oci_good v sc Hsel Hpm Hsc)).
+  intros Hsel Hn Hi. destruct impl as [| |out err]; [congruence| |].
+  - cbn. apply (call_of_good_v _ _ (verify_oci_good v sc Hsel)).
   - cbn. destruct err; [apply gc_err|].
     destruct out as [c|]; cbn in Hi; [|discriminate].
     apply gc_ok; [|apply custom_outc_good].
@@ -197,11 +194,11 @@ Qed.
 
 Lemma call_verify_blob_good impl v sc :
   sel_wf (v_blob v) = true ->
-  impl <> VNil -> impl_wf impl = true -> pm_ok (v_pm v) = true -> sc_wf sc = true ->
+  impl <> VNil -> impl_wf impl = true ->
   good_call (call_verify_blob impl v sc).
 Proof.
-  intros Hsel Hn Hi Hpm Hsc. destruct impl as [| |out err]; [congruence| |].
-  - cbn. apply (call_of_good_v _ _ (verify_blob_good v sc Hsel Hpm Hsc)).
+  intros Hsel Hn Hi. destruct impl as [| |out err]; [congruence| |].
+  - cbn. apply (call_of_good_v _ _ (verify_blob_good v sc Hsel)).
   - cbn. destruct err; [apply gc_err|].
     destruct out as [c|]; cbn in Hi; [|discriminate].
     apply gc_ok; [|apply custom_outc_good].
@@ -221,14 +218,13 @@ Inductive good_loop : lres -> Prop :=
 | gl_end b : good_loop (LEnd b).
 
 Lemma nloop_good impl v : sel_wf (v_oci v) = true ->
-  impl <> VNil -> impl_wf impl = true -> pm_ok (v_pm v) = true ->
-  forall k any items, forallb item_wf items = true -> good_loop (nloop impl v k any items).
+  impl <> VNil -> impl_wf impl = true -> 
+  forall k any items, good_loop (nloop impl v k any items).
 Proof.
-  intros Hsel Hn Hi Hpm. induction k as [|k IH]; intros any items Hit; cbn [nloop].
+  intros Hsel Hn Hi. induction k as [|k IH]; intros any items; cbn [nloop].
   - constructor.
   - destruct items as [|[|sc] rest]; try constructor.
-    cbn in Hit. apply andb_prop in Hit as [Hsc Hrest].
-    pose proof (call_verify_good impl v sc Hsel Hn Hi Hpm Hsc) as Hc.
+    pose proof (call_verify_good impl v sc Hsel Hn Hi) as Hc.
     inversion Hc as [o Ho Hg Heq | o e Heq].
     + apply gl_succ; assumption.
     + destruct o; [apply IH; assumption | constructor].
@@ -246,10 +242,10 @@ Qed.
 
 Lemma nverify_good impl v n :
   sel_wf (v_oci v) = true ->
-  impl_wf impl = true -> pm_ok (v_pm v) = true -> forallb item_wf (n_items n) = true ->
+  impl_wf impl = true -> 
   good_n (nverify impl v n).
 Proof.
-  intros Hsel Hi Hpm Hit. unfold nverify.
+  intros Hsel Hi. unfold nverify.
   destruct impl as [| |out err] eqn:Eimpl; [apply gn_err| |].
   - (* the library's verifier *)
     destruct (n_repo_nil n); [apply gn_err|].
@@ -262,7 +258,7 @@ Proof.
       destruct (n_digest_mismatch n); [apply gn_err|].
       destruct (n_list_err n); [apply gn_err|].
       assert (Hn : VLib <> VNil) by discriminate.
-      pose proof (nloop_good VLib v Hsel Hn Hi Hpm (Z.to_nat (n_max n)) false (n_items n) Hit) as Hl.
+      pose proof (nloop_good VLib v Hsel Hn Hi (Z.to_nat (n_max n)) false (n_items n)) as Hl.
       inversion Hl as [e He|o Ho Hg He| |b He]; try apply gn_err.
       * apply gn_ok; assumption.
       * destruct b; apply gn_err.
@@ -273,7 +269,7 @@ Proof.
     destruct (n_digest_mismatch n); [apply gn_err|].
     destruct (n_list_err n); [apply gn_err|].
     assert (Hn : VCustom out err <> VNil) by discriminate.
-    pose proof (nloop_good (VCustom out err) v Hsel Hn Hi Hpm (Z.to_nat (n_max n)) false (n_items n) Hit) as Hl.
+    pose proof (nloop_good (VCustom out err) v Hsel Hn Hi (Z.to_nat (n_max n)) false (n_items n)) as Hl.
     inversion Hl as [e He|o Ho Hg He| |b He]; try apply gn_err.
     + apply gn_ok; assumption.
     + destruct b; apply gn_err.
@@ -299,10 +295,10 @@ Qed.
 
 Lemma nverify_blob_good impl v b sc :
   sel_wf (v_blob v) = true ->
-  impl_wf impl = true -> pm_ok (v_pm v) = true -> sc_wf sc = true ->
+  impl_wf impl = true ->
   good_n (nverify_blob impl v b sc).
 Proof.
-  intros Hsel Hi Hpm Hsc. unfold nverify_blob.
+  intros Hsel Hi. unfold nverify_blob.
   destruct impl as [| |out err] eqn:Eimpl; [apply gn_err| |].
   - destruct (b_reader_nil b); [apply gn_err|].
     assert (Hn : VLib <> VNil) by discriminate.
@@ -318,13 +314,11 @@ Qed.
 
 (* ---------- the model as a whole ---------- *)
 Lemma wf_parts i : wf i = true ->
-  pm_ok (v_pm (i_v i)) = true /\ sc_wf (i_sc i) = true /\
-  forallb item_wf (n_items (i_n i)) = true /\ impl_wf (i_impl i) = true /\
+  impl_wf (i_impl i) = true /\
   sel_wf (v_oci (i_v i)) = true /\ sel_wf (v_blob (i_v i)) = true.
 Proof.
   unfold wf. intros H.
-  apply andb_prop in H as [H H4]. apply andb_prop in H as [H H3]. apply andb_prop in H as [H H2].
-  apply andb_prop in H as [H H1]. apply andb_prop in H as [Ho Hb].
+  apply andb_prop in H as [H Hi]. apply andb_prop in H as [Ho Hb].
   repeat split; assumption.
 Qed.
 
@@ -353,7 +347,7 @@ Qed.
 
 Theorem no_panic i : wf i = true -> returns_normally (model i).
 Proof.
-  intros Hwf. destruct (wf_parts i Hwf) as (Hpm & Hsc & Hit & Hi & Hso & Hsb).
+  intros Hwf. destruct (wf_parts i Hwf) as (Hi & Hso & Hsb).
   unfold model. destruct (uses_lib i && construct_fails i).
   { split; [discriminate|]. intros; discriminate. }
   destruct (i_entry i).
@@ -398,13 +392,13 @@ Theorem consistent_verifier i f l outs err :
      exists oc, outs = [Some oc] /\ oc_err oc = Some e /\ oc_same oc = true) /\
   (err = None -> exists oc, outs = [Some oc] /\ oc_same oc = true /\ oc_level oc <> None).
 Proof.
-  intros Hwf Hent Hm. destruct (wf_parts i Hwf) as (Hpm & Hsc & Hit & Hi & Hso & Hsb).
+  intros Hwf Hent Hm. destruct (wf_parts i Hwf) as (Hi & Hso & Hsb).
   unfold model in Hm. destruct (uses_lib i && construct_fails i); [discriminate|].
   destruct Hent as [Hent|Hent]; rewrite Hent in Hm.
   - rewrite (policy_selected_verify i Hent).
-    exact (good_v_consistent _ _ _ _ _ _ (verify_oci_good _ _ Hso Hpm Hsc) Hm).
+    exact (good_v_consistent _ _ _ _ _ _ (verify_oci_good _ _ Hso) Hm).
   - rewrite (policy_selected_blob i Hent).
-    exact (good_v_consistent _ _ _ _ _ _ (verify_blob_good _ _ Hsb Hpm Hsc) Hm).
+    exact (good_v_consistent _ _ _ _ _ _ (verify_blob_good _ _ Hsb) Hm).
 Qed.
 
 Lemma good_n_consistent o f l outs err :
@@ -423,11 +417,11 @@ Theorem consistent_notation i f l outs err :
   (err = None <-> exists oc, outs = [Some oc] /\ oc_err oc = None) /\
   (err <> None -> outs = [] /\ f = false).
 Proof.
-  intros Hwf Hent Hm. destruct (wf_parts i Hwf) as (Hpm & Hsc & Hit & Hi & Hso & Hsb).
+  intros Hwf Hent Hm. destruct (wf_parts i Hwf) as (Hi & Hso & Hsb).
   unfold model in Hm. destruct (uses_lib i && construct_fails i); [discriminate|].
   destruct Hent as [Hent|Hent]; rewrite Hent in Hm.
-  - exact (good_n_consistent _ _ _ _ _ (nverify_good _ _ _ Hso Hi Hpm Hit) Hm).
-  - exact (good_n_consistent _ _ _ _ _ (nverify_blob_good _ _ _ _ Hsb Hi Hpm Hsc) Hm).
+  - exact (good_n_consistent _ _ _ _ _ (nverify_good _ _ _ Hso Hi) Hm).
+  - exact (good_n_consistent _ _ _ _ _ (nverify_blob_good _ _ _ _ Hsb Hi) Hm).
 Qed.
 
 Theorem consistent_skip_verify v f l outs err :
@@ -470,7 +464,7 @@ Qed.
 
 Theorem model_spec_cons i : wf i = true -> spec_cons i (model i) = true.
 Proof.
-  intros Hwf. destruct (wf_parts i Hwf) as (Hpm & Hsc & Hit & Hi & Hso & Hsb).
+  intros Hwf. destruct (wf_parts i Hwf) as (Hi & Hso & Hsb).
   unfold model. destruct (uses_lib i && construct_fails i); [reflexivity|].
   destruct (i_entry i) eqn:Hent.
   - apply spec_cons_good_v; [now left|]. rewrite (policy_selected_verify i Hent).
@@ -722,7 +716,7 @@ Theorem nil_plugin_manager l sc :
   s_sig sc = SigOK -> s_pattr sc = PName -> s_nonstr_crit sc = false -> s_minver_bad sc = false ->
   process_signature l PMNil sc = PSRet (Some XInconclusive) true [(TInt, false)].
 Proof.
-  intros H1 H2 H3 H4. unfold process_signature, discover. rewrite H1, H2, H3, H4. reflexivity.
+  intros H1 H2 H3 H4. unfold process_signature, process_signature_gen, discover_gen. rewrite H1, H2, H3, H4. reflexivity.
 Qed.
 
 (* nil arguments of the notation.* functions *)
@@ -765,11 +759,22 @@ Definition sc_rev (r : revr) : scenario :=
         (PResp true (Some true) (Some true)) true false true false false false.
 
 Theorem contracts_needed :
-  model (i_base EVerify (v_strict (PMPlugin MetaNil)) VLib (sc_plugin (PResp true (Some true) (Some true)))) = OPanic /\
-  model (i_base EVerify (v_strict (PMPlugin (Meta true [CapTI]))) VLib (sc_plugin PRNil)) = OPanic /\
   model (i_base ENVerifyBlob (v_strict PMNil) (VCustom None false) sc_good) = OPanic /\
   model (i_base EVerify (mk_v (Some SelBadLevel) None PMNil) VLib sc_good) = OPanic.
 Proof. repeat split; reflexivity. Qed.
+
+(* before fix 686cc56 a verification plugin answering (nil, nil) to get-plugin-metadata or to
+   verify-signature reached a dereference; now both are ordinary failures with the outcome present *)
+Theorem prefix_686cc56_refuted :
+  process_signature_v0 LStrict (PMPlugin MetaNil) (sc_plugin (PResp true (Some true) (Some true))) = PSPanic /\
+  process_signature_v0 LStrict (PMPlugin (Meta true [CapTI])) (sc_plugin PRNil) = PSPanic /\
+  (exists o, model (i_base EVerify (v_strict (PMPlugin MetaNil)) VLib (sc_plugin (PResp true (Some true) (Some true))))
+               = ORet false None [Some o] (Some XInconclusive) /\ oc_err o = Some XInconclusive) /\
+  (exists o, model (i_base EVerifyBlob (v_strict (PMPlugin (Meta true [CapTI]))) VLib (sc_plugin PRNil))
+               = ORet false None [Some o] (Some XOther) /\ oc_err o = Some XOther).
+Proof.
+  split; [reflexivity|]. split; [reflexivity|]. split; eexists; split; reflexivity.
+Qed.
 
 (* before fix d78db00 a revocation validator answering with a nil entry / another number of
    results than certificates reached a dereference; now it is an ordinary revocation failure *)
